@@ -113,6 +113,12 @@ def build(d):
         return None
     if t == "noise":
         return noise(d[1], d[2])
+    if t == "repeat":
+        # ("repeat", unit, count[, "str" | "list"]): a very large value that compresses well
+        v = d[1] * d[2]
+        if len(d) > 3 and d[3] == "list":
+            return [v, len(v)]
+        return v
     if t == "bigint":
         digits, lead, sign = d[1], d[2], d[3]
         return sign * int(str(lead) + "7" * (digits - 1))
@@ -577,6 +583,16 @@ def random_strategy(tier):
     return st.tuples(config_strategy(), value_strategy())
 
 
+def large_value_cases(tier, seed):
+    """values of 17 and 33 MiB (memcached's -I allows items of up to a gigabyte; a serializer has no limit of its own): through the
+    compressing serializers in their default and explicit configurations"""
+    sizes = (17 * 2 ** 20 + 3,) if tier == "quick" else (17 * 2 ** 20 + 3, 33 * 2 ** 20 + 1)
+    for n in sizes:
+        for c in (("default-compressed",), ("module-compressed",), ("compressed", "zlib", 400, ("pickle", 5)), ("pickle", 5)):
+            for v in (("repeat", b"ab\x00", n // 3), ("repeat", "xy\u00e9", n // 4), ("repeat", b"q" * 64, n // 64, "list")):
+                yield (c, v)
+
+
 def grid_cases(tier, seed):
     configs = [("pickle", p) for p in range(6)] + [("pickle", None), ("legacy-pm",), ("default-compressed",)]
     for codec in sorted(CODECS):
@@ -655,6 +671,7 @@ def sequence_strategy(tier):
 
 PARTS = [
     Part("grid", "enum", check, cases=grid_cases, exhaustive=False),
+    Part("very-large-values", "enum", check, cases=large_value_cases, shards={"quick": 6, "thorough": 12}, exhaustive=True),
     Part("a-class-that-is-found-again", "enum", check_late_class, cases=late_class_cases, shards={"quick": 1, "thorough": 1}, exhaustive=True),
     Part("counters-rewritten-by-the-server", "enum", check_counter, cases=counter_cases, exhaustive=True),
     Part("written-by-one-read-by-another", "enum", check_cross, cases=cross_cases),
